@@ -102,3 +102,17 @@ let cmd_sim toks =
       | OutOfFuel -> out "OUTOFFUEL" | Fault w -> fault w)
    | _ -> raise (Parse ("sim kind " ^ kind)));
   Buffer.contents buf
+
+(* delaydraw <gauss|gamma> <ndraws> <p1> <p2> <nraw> raws...  ->  values ... POS n *)
+let cmd_delaydraw toks =
+  let (kind, r) = pop toks in let (n, r) = pop_int r in let (p1, r) = pop_fl r in let (p2, r) = pop_fl r in
+  let (u, _) = pop_stream r in
+  let buf = Buffer.create 128 in
+  let rec go k pos =
+    if k = 0 then (Buffer.add_string buf ("POS " ^ string_of_int (int_of_nat pos)))
+    else begin
+      match (if kind = "gauss" then Some (normal_rv fl pi2 p1 p2 u pos) else gamma_rv fl pi2 gfuel p1 p2 u pos) with
+      | None -> Buffer.add_string buf "FAULT2"
+      | Some (v, pos') -> Buffer.add_string buf (hx v ^ " "); go (k - 1) pos'
+    end in
+  go n O; Buffer.contents buf
